@@ -497,13 +497,15 @@ Proof.
 Qed.
 
 (* ---- the same facts stated on the encoder (C14) ---- *)
-Lemma f32_fin_range b s m e : f32_of_bits b = Fin s m e -> 0 <= m < 2 ^ 24 /\ -149 <= e <= 104.
+Lemma f32_range b : match f32_of_bits b with Fin _ m e => 0 <= m < 2 ^ 24 /\ -149 <= e <= 104 | _ => True end.
 Proof.
   unfold f32_of_bits. change (2 ^ 23) with 8388608. change (2 ^ 24) with 16777216.
   pose proof (Z.mod_pos_bound b 8388608 ltac:(lia)) as Hf. pose proof (Z.mod_pos_bound (b / 8388608) 256 ltac:(lia)) as HE.
-  destruct (Z.eqb_spec ((b / 8388608) mod 256) 255) as [E1|E1]; [destruct (b mod 8388608 =? 0); discriminate|].
-  destruct (Z.eqb_spec ((b / 8388608) mod 256) 0) as [E0|E0]; intros X; injection X as X1 X2 X3; clear X1; lia.
+  destruct (Z.eqb_spec ((b / 8388608) mod 256) 255) as [E1|E1]; [destruct (b mod 8388608 =? 0); exact I|].
+  destruct (Z.eqb_spec ((b / 8388608) mod 256) 0) as [E0|E0]; lia.
 Qed.
+Lemma f32_fin_range b s m e : f32_of_bits b = Fin s m e -> 0 <= m < 2 ^ 24 /\ -149 <= e <= 104.
+Proof. intros H. pose proof (f32_range b) as R. rewrite H in R. exact R. Qed.
 
 Lemma remb_floor_nonneg bits x : remb_floor bits = Some x -> 0 <= x.
 Proof.
